@@ -19,6 +19,7 @@ import (
 
 	"verifharness/c16lib"
 	"verifharness/core"
+	"verifharness/hplug"
 	"verifharness/plancoq"
 	"verifharness/plangen"
 
@@ -45,7 +46,7 @@ type spec struct {
 
 // index space: [0,nSeq) sequential cases, [nSeq,nSeq+nSecond) the second-use family (groups of 20 on the
 // same Workstream, run by the sequential child right after the sequential cases), then nConc concurrent cases.
-var nSeq, nSecond, nConc int
+var nSeq, nSecond, nConc, nLarge int
 
 // mutations that make a plan malformed (second-use family: every other Submit must be a rejection)
 var invalidating = []string{"key-dup-cross-level", "key-dup-same-kind", "name-empty", "timeout-1ns", "nil-element-insert",
@@ -676,6 +677,23 @@ func concWorkerMain(from, to, par int, dir string) {
 		c16lib.SetRegisters(it.bV.plan, w.set.Reg)
 		items = append(items, it)
 	}
+	// large plans go to a second Workstream with an in-memory vault (the id source is process-wide)
+	var seenMu gosync.Mutex
+	var largeCases []core.Case
+	memVault, err := sqlitevault.New(ctx, "", w.set.Reg, sqlitevault.WithInMemory())
+	if err != nil {
+		fmt.Fprintln(os.Stderr, "in-memory vault:", err)
+		os.Exit(4)
+	}
+	wsLarge, err := coercion.New(ctx, w.set.Reg, memVault)
+	if err != nil {
+		fmt.Fprintln(os.Stderr, "second workstream:", err)
+		os.Exit(4)
+	}
+	if nLarge > 0 {
+		// one deep plan on its own, before anything else runs
+		largeCases = append(largeCases, w.submitLarge(wsLarge, "deep-alone", "nothing else running", 1, 100*nLarge/2, 200, &seenMu))
+	}
 	// phase A: workflow.Validate from `par` goroutines at once
 	parallel(items, par, func(it *citem) {
 		var err error
@@ -690,6 +708,16 @@ func concWorkerMain(from, to, par int, dir string) {
 	})
 	// phase B: Workstream.Submit from `par` goroutines at once, on ONE Workstream
 	before := w.rows()
+	largeDone := make(chan []core.Case, 1)
+	go func() {
+		var cs []core.Case
+		if nLarge > 0 {
+			// a wide plan and a deep one, submitted while the concurrent batch's Submits are running
+			cs = append(cs, w.submitLarge(wsLarge, "wide-during-batch", "the concurrent batch's Submits", 60*nLarge/2, 10, 10, &seenMu))
+			cs = append(cs, w.submitLarge(wsLarge, "deep-during-batch", "the concurrent batch's Submits", 1, 40, 150, &seenMu))
+		}
+		largeDone <- cs
+	}()
 	parallel(items, par, func(it *citem) {
 		var err error
 		it.t0 = time.Now()
@@ -706,6 +734,7 @@ func concWorkerMain(from, to, par int, dir string) {
 		}
 		it.t1 = time.Now()
 	})
+	largeCases = append(largeCases, <-largeDone...)
 	after := w.rows()
 	// phase C: what each Submit left in the store, per plan
 	out := bufio.NewWriterSize(os.Stdout, 1<<20)
@@ -751,6 +780,9 @@ func concWorkerMain(from, to, par int, dir string) {
 		}
 		enc.Encode(line{Idx: it.g.spec.Index, Case: mkCase(it.g, *o, storedTerm, "None"), Obs: *o})
 	}
+	for _, lc := range largeCases {
+		enc.Encode(line{Idx: -2, Case: lc})
+	}
 	// the whole batch: the tables grew by exactly the objects of the accepted plans
 	for k := range expect {
 		if after[k]-before[k] != expect[k] {
@@ -764,10 +796,148 @@ func concWorkerMain(from, to, par int, dir string) {
 	os.Exit(0)
 }
 
+// ---------------------------------------------------------------- large plans (child; Go-side monitor only)
+
+// largePlan builds a valid plan of nb blocks x ns sequences x na actions (plus a pre-check group per block).
+func largePlan(tag string, nb, ns, na int) *workflow.Plan {
+	act := func(name string, check bool) *workflow.Action {
+		a := &workflow.Action{Name: name, Descr: "d " + name, Plugin: "verif/action", Req: hplug.Req{Nonce: tag, Path: name}}
+		if check {
+			a.Plugin = "verif/check"
+		}
+		return a
+	}
+	p := &workflow.Plan{Name: "large " + tag, Descr: "large plan",
+		PreChecks: &workflow.Checks{Actions: []*workflow.Action{act("pc", true)}}}
+	for b := 0; b < nb; b++ {
+		blk := &workflow.Block{Name: fmt.Sprintf("b%d", b), Descr: "block", Concurrency: 4,
+			PreChecks: &workflow.Checks{Actions: []*workflow.Action{act(fmt.Sprintf("b%d-pre", b), true)}}}
+		for q := 0; q < ns; q++ {
+			sq := &workflow.Sequence{Name: fmt.Sprintf("b%d-s%d", b, q), Descr: "sequence"}
+			for a := 0; a < na; a++ {
+				sq.Actions = append(sq.Actions, act(fmt.Sprintf("b%d-s%d-a%d", b, q, a), false))
+			}
+			blk.Sequences = append(blk.Sequences, sq)
+		}
+		p.Blocks = append(p.Blocks, blk)
+	}
+	return p
+}
+
+type largeObs struct {
+	Tag       string   `json:"tag"`
+	Shape     [3]int   `json:"shape"`
+	Objects   int      `json:"objects"`
+	During    string   `json:"during"` // what else was going on in the process
+	SubmitOK  bool     `json:"submit_ok"`
+	Panic     string   `json:"panic,omitempty"`
+	Err       string   `json:"err,omitempty"`
+	Dup       int      `json:"duplicate_ids"`   // ids of the submitted tree equal to an earlier id of the same tree
+	Nil       int      `json:"nil_ids"`
+	NotV7     int      `json:"non_v7_ids"`
+	SeenBefore int     `json:"ids_seen_before"` // ids some other plan of this process already had
+	Readable  bool     `json:"readable"`
+	ReadSame  bool     `json:"read_back_same_ids"`
+	Millis    int64    `json:"submit_ms"`
+	Problems  []string `json:"problems"`
+}
+
+// submitLarge submits one large valid plan through the real Submit of ws and judges the ids it was given.
+// The monitor is on the Go side: it checks, on the real uuid source, the premise of theorem c16_submit
+// (the id supply is injective, never nil, version 7) and the theorem's conclusion for this plan.
+func (w *worker) submitLarge(ws *coercion.Workstream, tag, during string, nb, ns, na int, seenMu *gosync.Mutex) core.Case {
+	ctx := context.Background()
+	p := largePlan(tag, nb, ns, na)
+	o := largeObs{Tag: tag, Shape: [3]int{nb, ns, na}, During: during, Objects: len(c16lib.Objects(p))}
+	var id uuid.UUID
+	var err error
+	t0 := time.Now()
+	if pn := guard(func() { id, err = ws.Submit(ctx, p) }); pn != "" {
+		o.Panic = pn
+		o.Problems = append(o.Problems, "Submit of a well-formed plan panicked")
+	} else if err != nil {
+		o.Err = err.Error()
+		o.Problems = append(o.Problems, "Submit rejected a well-formed plan: "+err.Error())
+	} else {
+		o.SubmitOK = true
+	}
+	o.Millis = time.Since(t0).Milliseconds()
+	// the ids the submitted tree was given (Submit works in place), whatever the vault said afterwards
+	own := map[uuid.UUID]bool{}
+	assigned := 0
+	seenMu.Lock()
+	for _, ob := range c16lib.Objects(p) {
+		u := *ob.ID()
+		if u == uuid.Nil {
+			o.Nil++
+			continue
+		}
+		assigned++
+		if u.Version() != 7 {
+			o.NotV7++
+		}
+		if own[u] {
+			o.Dup++
+		} else if w.seen[u] {
+			o.SeenBefore++
+		}
+		own[u] = true
+	}
+	for u := range own {
+		w.seen[u] = true
+	}
+	seenMu.Unlock()
+	if assigned > 0 || o.SubmitOK {
+		if o.Dup > 0 {
+			o.Problems = append(o.Problems, fmt.Sprintf("%d of the %d objects got an id that another object of the same plan already had", o.Dup, o.Objects))
+		}
+		if o.Nil > 0 {
+			o.Problems = append(o.Problems, fmt.Sprintf("%d objects were left with a nil id", o.Nil))
+		}
+		if o.NotV7 > 0 {
+			o.Problems = append(o.Problems, fmt.Sprintf("%d ids are not version 7", o.NotV7))
+		}
+		if o.SeenBefore > 0 {
+			o.Problems = append(o.Problems, fmt.Sprintf("%d ids had already been given to another plan of this process", o.SeenBefore))
+		}
+	}
+	if o.SubmitOK {
+		var sp *workflow.Plan
+		var rerr error
+		if pn := guard(func() { sp, rerr = ws.Plan(ctx, id) }); pn != "" || rerr != nil || sp == nil {
+			o.Problems = append(o.Problems, fmt.Sprintf("the accepted plan cannot be read back: %v %s", rerr, pn))
+		} else {
+			o.Readable = true
+			back := map[uuid.UUID]bool{}
+			n := 0
+			for _, ob := range c16lib.Objects(sp) {
+				back[*ob.ID()] = true
+				n++
+			}
+			o.ReadSame = n == o.Objects && len(back) == len(own)
+			for u := range back {
+				if !own[u] {
+					o.ReadSame = false
+				}
+			}
+			if !o.ReadSame {
+				o.Problems = append(o.Problems, fmt.Sprintf("the plan read back has %d objects with %d distinct ids; %d objects with %d distinct ids were submitted", n, len(back), o.Objects, len(own)))
+			}
+		}
+	}
+	if o.Problems == nil {
+		o.Problems = []string{}
+	}
+	return core.Case{ID: "c16-large-" + tag, Kind: "large", Nontrivial: true, Hash: core.Hash("large", tag, fmt.Sprint(o.Shape)),
+		Dist:     map[string]any{"objects": o.Objects, "family": "large", "during": during, "ok": len(o.Problems) == 0},
+		Input:    map[string]any{"seed": core.Seed(), "tag": tag, "blocks": nb, "sequences": ns, "actions": na, "nseq": nSeq, "nsecond": nSecond, "nconc": nConc},
+		Observed: o, Note: strings.Join(o.Problems, "; ")}
+}
+
 // runConc runs the concurrent batch in a child and returns its lines (and what went wrong, if anything).
 func runConc(self, dir string, from, to, par int) (map[int]line, []line, string) {
 	cmd := exec.Command(self, "-concworker", "-from", fmt.Sprint(from), "-to", fmt.Sprint(to), "-par", fmt.Sprint(par), "-db", dir,
-		"-n", fmt.Sprint(nSeq), "-second", fmt.Sprint(nSecond), "-conc", fmt.Sprint(nConc))
+		"-n", fmt.Sprint(nSeq), "-second", fmt.Sprint(nSecond), "-conc", fmt.Sprint(nConc), "-large", fmt.Sprint(nLarge))
 	cmd.Env = os.Environ()
 	var stderr, stdout strings.Builder
 	cmd.Stderr, cmd.Stdout = &stderr, &stdout
@@ -818,6 +988,7 @@ func main() {
 	second := flag.Int("second", 60, "number of second-use cases (groups of 20 Submits of one plan on the same Workstream)")
 	conc := flag.Int("conc", 400, "number of cases submitted concurrently on one Workstream")
 	par := flag.Int("par", 8, "goroutines of the concurrent batch")
+	large := flag.Int("large", 2, "size factor of the large-plan family run with the concurrent batch (0 = none; 2 = 20 000, 6 700 and 6 000 objects)")
 	isConc := flag.Bool("concworker", false, "run the concurrent batch in this process (child mode)")
 	outp := flag.String("out", "-", "output file (JSONL)")
 	isWorker := flag.Bool("worker", false, "run cases in this process (child mode)")
@@ -827,7 +998,7 @@ func main() {
 	startEvery := flag.Int("start-every", 3, "call Start on every k-th accepted plan (0 = only where a refusal is expected)")
 	only := flag.Int("only", -1, "run just this case index")
 	flag.Parse()
-	nSeq, nSecond, nConc = *n, *second, *conc
+	nSeq, nSecond, nConc, nLarge = *n, *second, *conc, *large
 
 	if *isConc {
 		concWorkerMain(*from, *to, *par, *dir)
